@@ -513,6 +513,8 @@ class Model:
 
     # -------------------------------------------------- type inference (layer 1)
     def expr_types(self, fn, e, env):
+        if isinstance(e, ast.Call) and e.args and self.ext_name(fn.mod, e.func) in ('dataclasses.replace', 'copy.copy', 'copy.deepcopy'):
+            return self.expr_types(fn, e.args[0], env)          # an object of the same class as the one copied
         if isinstance(e, ast.Call):
             f = e.func
             if isinstance(f, ast.Name):
@@ -737,6 +739,7 @@ class Model:
                     if isinstance(m, ast.AnnAssign) and isinstance(m.target, ast.Name):
                         an = m.annotation
                         nm = an.id if isinstance(an, ast.Name) else (an.attr if isinstance(an, ast.Attribute) else (an.value if isinstance(an, ast.Constant) and isinstance(an.value, str) else None))
+                        c.field_types[m.target.id] |= set()         # (a field of the class whatever its type: `commission: float = 0.0` is not somebody's property)
                         if nm and nm in self.cls_by_name:
                             c.field_types[m.target.id] |= {nm}
             self._propagate_params()
